@@ -62,7 +62,8 @@ def check(res):
     # the two documented normal forms, which the statement allows as the only differences
     exe = build_driver("fsweep_driver", "asan", parts=12)
     nlines = ["N:qualified %d %d %d" % (a, b, t) for a in range(7) for b in range(7) for t in (0, 5)] + \
-             ["N:transfer %d %d %d" % (a, b, c) for a in range(3) for b in (1, 4) for c in (2, 7)]
+             ["N:transfer %d %d %d" % (a, b, c) for a in range(3) for b in (1, 4) for c in (2, 7)] + \
+             ["N:vendor %d %d %d %d" % (a, b, c, k) for a in (0, 2) for b in (1, 4) for c in (2,) for k in range(6)]
     pn = run([exe], input="\n".join(nlines) + "\n", env=SAN_ENV, timeout=600)
     nform = 0
     for l in pn.stdout.splitlines():
@@ -72,6 +73,15 @@ def check(res):
         nform += 1
         a = m.group(2).split(";")
         d = fsweep.parse_dump(m.group(3))
+        if m.group(1) == "N:vendor":
+            if d.get("distinct") != "1" or d.get("convention") != a[3] or d.get("linkage") != "$cxx_link" or d.get("as_type.convention") != a[3]:
+                k = "normal-form:vendor-convention"
+                if k not in keys:
+                    keys.add(k)
+                    res.violation(k, "a function type / as-type requested with the transfer (C++ linkage, calling convention %s) reports convention %s / %s (distinct from the plain "
+                                  "function type: %s): only the natural transfer may be left out" % (a[3], d.get("convention"), d.get("as_type.convention"), d.get("distinct")),
+                                  {"call": l[:300], "rerun": "echo 'N:vendor <p> <t> <e> <cc>' | build/<hash>/asan/fsweep_driver"})
+            continue
         if m.group(1) == "N:qualified":
             want = str(int(a[0]) | int(a[1]))
             if d.get("qualifiers") != want or d.get("main_variant") != a[2] or d.get("same") != "1":
